@@ -81,7 +81,12 @@ def emit_one(g, gi, runtime_ctor=False, limits=None, extra_decl=''):
         txt = 'n%d(%s)' % (r.lhs, ', '.join(args))
         if runtime_ctor and r.ftor != 'd' and (ri + gi) % 2 == 1:
             # a rule held in a named (non-const) object and decorated later: rb = n(..); ... rules(rb >= f, ...)
-            locals_.append('auto rb%d = %s;' % (ri, txt)); txt = 'rb%d' % ri
+            if r.ftor == 'f' and g.vtypes[r.lhs] != 'N' and (ri // 2) % 2 == 0:
+                # ... and one that already carries a contextual functor, which the later '>=' replaces by a plain one (the context must then not be passed)
+                locals_.append('auto rb%d = %s >>= vf::X<%d, %s>{};' % (ri, txt, ri, VT[g.vtypes[r.lhs]]))
+            else:
+                locals_.append('auto rb%d = %s;' % (ri, txt))
+            txt = 'rb%d' % ri
         # the explicit precedence may be written before or after the functor: n(..)[p] >= f   or   (n(..) >= f)[p]
         post = bool(r.prec) and r.ftor != 'd' and (ri + gi + len(g.rules)) % 2 == 1
         if r.prec and not post: txt += '[%d]' % r.prec
